@@ -421,6 +421,10 @@ impl Real {
                         Some(s) => res(s.seek(SeekFrom::Start(n.parse().unwrap())).map(|k| format!("ok {}", k))),
                         None => "err nohandle".into(),
                     },
+                    ["hseekend", id, d] => match self.handles.get_mut(&id.parse().unwrap()) {
+                        Some(s) => res(s.seek(SeekFrom::End(d.parse().unwrap())).map(|k| format!("ok {}", k))),
+                        None => "err nohandle".into(),
+                    },
                     ["hsetlen", id, n] => match self.handles.get_mut(&id.parse().unwrap()) {
                         Some(s) => ok_unit(s.set_len(n.parse().unwrap())),
                         None => "err nohandle".into(),
